@@ -609,10 +609,11 @@ def c10(prop, tier, seed, wd, explore, limit, kinds, we):
         cases = cases[:limit]
     wall = run.run_pool_all(cases)
     rule = ("a case is one pool_driver process running N seeded pool lifecycles (1-8 workers, 0-64 tasks and backlogs of 70-470 tasks, seven producer protocols: add-all/stop/wait, wait-for-completion then stop, a task stops the pool, tasks trickling in, running tasks handing over further tasks after the stop, "
-            "two bursts separated by 0.7 s in which every worker is idle, a task that hands over a child and waits for it while its siblings sleep); "
+            "two bursts separated by 0.7 s in which every worker is idle, a task that hands over a child and waits for it while its siblings sleep, a second pool that is stopped and joined while the first stays in service, "
+            "a join object owned by task closures whose destructor hands over the continuation); tasks handed over after the stop (protocol e) must run at most once, all others exactly once; "
             "per task an execution counter and an in-flight flag, per lifecycle the hook event log (enqueue/pop/begin/end/exit) is checked offline; plain flavor with the pthread_cond_wait interposer widening the "
             "predicate-to-block window and seeded delays at the schedule points, deadlock decided from scheduler state; repeated without delays and under TSan; distinct = process seeds, non-trivial = completed")
-    return conc_finish(prop, tier, seed, run, wall, rule, explore, we, ("window_hits", "add_in_window", "tasks_0", "workers_1", "protocol_a", "protocol_b", "protocol_c", "protocol_d", "protocol_e", "protocol_f", "protocol_g", "tasks_gt_64"), {"lifecycles": run.counters.get("eval.lifecycle", 0)})
+    return conc_finish(prop, tier, seed, run, wall, rule, explore, we, ("window_hits", "add_in_window", "tasks_0", "workers_1", "protocol_a", "protocol_b", "protocol_c", "protocol_d", "protocol_e", "protocol_f", "protocol_g", "protocol_h", "protocol_i", "tasks_gt_64"), {"lifecycles": run.counters.get("eval.lifecycle", 0)})
 
 @register("C09")
 def c09(prop, tier, seed, wd, explore, limit, kinds, we):
